@@ -20,29 +20,29 @@ type gSess struct {
 	poll      int // pending poll request, -1
 	hsReq     int // handshake request ordinal (polling), -1
 	// what the generator did to it
-	closeCause bool
-	overlap    bool
+	closeCause  bool
+	overlap     bool
 	pollPending bool
 	buffered    int
 	polledAtEnd bool
 	lingering   bool // a graceful close was requested: the generator keeps poking the session
 	closeReq    bool
-	closeReqAt  int  // elapsed virtual ms at the first close request
-	sent       []rmsg // Send calls made while the session was observed open
-	posted     []rmsg // well-formed messages submitted while open
-	reqs       map[int]string // request ordinal -> "poll" | "post" | "hs"
+	closeReqAt  int            // elapsed virtual ms at the first close request
+	sent        []rmsg         // Send calls made while the session was observed open
+	posted      []rmsg         // well-formed messages submitted while open
+	reqs        map[int]string // request ordinal -> "poll" | "post" | "hs"
 }
 
 type sesGen struct {
-	r      *Rec
-	lines  []string
-	sess   []*gSess
-	nreq   int
-	nconn  int
-	I, T   int
-	now    int
-	eio3   bool
-	initial bool
+	r          *Rec
+	lines      []string
+	sess       []*gSess
+	nreq       int
+	nconn      int
+	I, T       int
+	now        int
+	eio3       bool
+	initial    bool
 	silenceEnd bool // the scenario ended with a silence longer than every bound
 	rt         bool // real-time scenario (QUIC loopback): WebTransport sessions, no waiting for timers
 }
@@ -79,7 +79,9 @@ func randMsg(r *Rec) rmsg {
 	return rmsg{kind, d}
 }
 
-func validUTF8(b []byte) bool { return bytes.ToValidUTF8(b, []byte("?")) != nil && string(bytes.ToValidUTF8(b, []byte{0})) == string(b) }
+func validUTF8(b []byte) bool {
+	return bytes.ToValidUTF8(b, []byte("?")) != nil && string(bytes.ToValidUTF8(b, []byte{0})) == string(b)
+}
 
 func famSesRand(t *testing.T, r *Rec) {
 	n := 40
@@ -375,17 +377,17 @@ var docReasons = map[string]bool{"transport_close": true, "transport_error": tru
 // monitorSession evaluates the property texts of C01 C02 C03 C04 C11 C12 C18 on one run.
 func monitorSession(r *Rec, g *sesGen, outs []string) {
 	type sview struct {
-		closes     int
-		closedAt   int // op index of the close event
-		lastState  string
-		received   []rmsg // what a conformant client has decoded so far
-		delivered  []rmsg // message events
-		cbSeen     map[int]bool
-		lastCb     int
-		flushes    int
-		sentAcc    int // number of sends made while the session was observed open
-		openAtSend []bool
-		violated   bool
+		closes      int
+		closedAt    int // op index of the close event
+		lastState   string
+		received    []rmsg // what a conformant client has decoded so far
+		delivered   []rmsg // message events
+		cbSeen      map[int]bool
+		lastCb      int
+		flushes     int
+		sentAcc     int // number of sends made while the session was observed open
+		openAtSend  []bool
+		violated    bool
 		undecodable string
 	}
 	views := map[int]*sview{}
@@ -477,7 +479,13 @@ func monitorSession(r *Rec, g *sesGen, outs []string) {
 				if f[1] == "drop" && e.args[0] != "transport_close" {
 					// the peer went away (connection dropped, or closed with a close frame of whatever status code):
 					// the documented reason of that cause is "transport close"
-					r.Violate("C03", "C03/reason-of-cause/peer-closed/"+e.args[0], "the peer closed its connection ("+line+") and the session closed with reason "+e.args[0], replay)
+					trName := "?"
+					for _, s2 := range g.sess {
+						if s2.ord == k {
+							trName = s2.transport
+						}
+					}
+					r.Violate("C03", "C03/reason-of-cause/peer-closed/"+e.args[0]+"/"+trName, "the peer closed its "+trName+" connection ("+line+") and the session closed with reason "+e.args[0], replay)
 				}
 				if (f[1] == "close" || f[1] == "shutdown") && e.args[0] != "forced_close" && e.args[0] != "transport_close" {
 					r.Violate("C12", "C12/reason/"+e.args[0], "application close ended with reason "+e.args[0], replay)
